@@ -9,7 +9,7 @@
     statements for it carry [not_pinned] and the excluded case is refuted by a witness (open finding).
     [tag_ok] is the domain of the statement (decidable, the same check the extracted oracle performs). *)
 From Coq Require Import ZArith Bool String List.
-Require NixV.Gen.GenAccess NixV.Access.AccessBridgeModels.
+Require NixV.Gen.GenAccess NixV.Access.AccessBridgeModels NixV.Gen.GenPairs NixV.Axis.PairBridge NixV.Axis.RangeModel.
 Require Import NixV.Base.Prelude NixV.Base.F64 NixV.Gen.GenDimensions.
 Require Import NixV.Access.Retrieval NixV.Access.RetrievalSpec NixV.Access.RetrievalAxis NixV.Access.RetrievalDomain
                NixV.Access.RetrievalAssemble NixV.Access.RetrievalTag NixV.Access.RetrievalOracle
@@ -165,6 +165,18 @@ Theorem C05_window_test_is_generated : forall shape position count, (List.length
   = Ok (Retrieval.positionAndExtentInData shape position count).
 Proof. exact NixV.Access.AccessBridgeModels.retrieval_extent_test_is_generated. Qed.
 Print Assumptions C05_window_test_is_generated.
+
+(** The start/end pair conversion of every dimension kind is the code regenerated from src/Dimensions.cpp on this run *)
+Theorem C05_pair_conversion_is_generated : forall d m s e,
+  Retrieval.indexOf_pair d m s e =
+  match d with
+  | Retrieval.DSampled dt off _ => NixV.Gen.GenPairs.sampled_pair s e dt (Retrieval.offset_or_zero off) m
+  | Retrieval.DRange ticks _ => NixV.Axis.PairBridge.pair_rule (fun p r => NixV.Axis.RangeModel.getIndex p ticks r) true m s e
+  | Retrieval.DSet n => NixV.Axis.PairBridge.pair_rule (fun p r => getSetIndex p (Retrieval.labels_of n) r) false m s e
+  | Retrieval.DFrame n => NixV.Gen.GenPairs.df_pair s e n m
+  end.
+Proof. exact NixV.Axis.PairBridge.retrieval_pair_is_generated. Qed.
+Print Assumptions C05_pair_conversion_is_generated.
 
 (** OPEN OBLIGATION while the defects of DESIGN section 9 items 4, 19, 28, 31 are in the tree: the behaviour the
     extracted driver replays against the library is the repaired one.  Holds once the fix: commits have landed and
